@@ -1812,6 +1812,34 @@ func (g *gen) breakSomething() {
 					*sp = sm
 				}
 				g.set.Probes["same_prefix_different_module_in_two_submodules"] = true
+			} else if t.Coin() {
+				// the clash is between a module and ITS OWN submodule: the module says "dep" for na, the submodule says "dep" for nb
+				// (prefixes are local to a file). The import of nb exists only in the submodule; nb may import the module back, which
+				// closes an import cycle that only the submodule's import table shows, and groupings may follow that cycle.
+				nm = mk(g.name("nm"), g.name("pm"))
+				sm := &Module{Name: g.name("ns"), Prefix: nm.Prefix, Sub: true, BelongsTo: nm.Name}
+				sm.Root = S("submodule", sm.Name, S("belongs-to", nm.Name, S("prefix", nm.Prefix)))
+				nm.Root.Add(S("import", na.Name, S("prefix", "dep")), S("include", sm.Name))
+				sm.Root.Add(S("import", nb.Name, S("prefix", "dep")))
+				na.Root.Add(S("grouping", "g", S("leaf", "from-a", S("type", "string"))))
+				nb.Root.Add(S("grouping", "g", S("leaf", "from-b", S("type", "uint8"))))
+				nm.Root.Add(S("container", g.name("c"), S("uses", "dep:g")))
+				sm.Root.Add(S("container", g.name("c"), S("uses", "dep:g")))
+				op := "prefix-clash-module-vs-own-submodule"
+				if t.Draw(4) > 0 {
+					addLinkage(nb, S("import", nm.Name, S("prefix", "back")))
+					op += "+import-cycle-through-submodule-only"
+					if t.Draw(4) > 0 {
+						sm.Root.Add(S("grouping", "sg", S("uses", "dep:rg")))
+						nb.Root.Add(S("grouping", "rg", S("uses", "back:sg")))
+						op += "+grouping-cycle-along-it"
+					}
+				}
+				g.set.Probes["prefix_clash_module_vs_own_submodule"] = true
+				g.set.Mods = append(g.set.Mods, na, nb, nm, sm)
+				g.all = append(g.all, na, nb, nm, sm)
+				g.set.Ops = append(g.set.Ops, op)
+				return
 			}
 			na.Root.Add(S("identity", "root"), S("feature", "fr"), S("grouping", "g", S("leaf", "from-a", S("type", "string"))), S("typedef", "t", S("type", "string")))
 			bothDefine := t.Coin()
